@@ -95,7 +95,7 @@ def _quantised_result_ops(ctx, rng, n):
 
 
 def gen_cases(rng, tier):
-    n_user = 40 if tier == "thorough" else 6
+    n_user = 40 if tier == "thorough" else 12
     n_pre = 6 if tier == "thorough" else 2
     per = 100 if tier == "thorough" else 60
     cases = []
@@ -106,7 +106,7 @@ def gen_cases(rng, tier):
     # declaration histories with operations attempted BEFORE their result type
     # exists and repeated after it has been declared (the oracle of C17)
     from props import C17
-    for c in C17.gen_cases(rng, "quick")[:(12 if tier == "thorough" else 4)]:
+    for c in C17.gen_cases(rng, "quick")[:(12 if tier == "thorough" else 6)]:
         c["tags"] = c.get("tags", []) + ["early-ops"]
         cases.append(c)
     for _ in range(n_user):
